@@ -17,10 +17,11 @@ EXTENDS Integers, Sequences, FiniteSets, TLC, Json
 
 CONSTANTS L,        \* lattice size (4 => vertices (0,2,4,6)^2)
           MaxV,     \* maximum number of vertices
-          NoGos     \* set of no-go polygons (sequences of vertices) used for the land-constraint part; {<<>>} = none
+          NoGos,    \* set of LISTS of no-go polygons (sequences of sequences of vertices) for the land-constraint part; <<>> = none
+          Extras    \* set of LISTS of further property outlines given after the built one; <<>> = a single outline
 
-VARIABLES poly, closed, nogo
-vars == <<poly, closed, nogo>>
+VARIABLES poly, closed, nogo, extra
+vars == <<poly, closed, nogo, extra>>
 
 Coord == {2 * k : k \in 0..(L - 1)}
 Vertices == Coord \X Coord
@@ -84,14 +85,15 @@ CanClose(q) ==
   /\ ~OnSegment(q[1], q[2], q[Len(q)]) /\ ~OnSegment(q[Len(q) - 1], q[Len(q)], q[1])
   /\ Area2(q) # 0
 
-Init == poly = <<>> /\ closed = FALSE /\ nogo = <<>>
-Start == poly = <<>> /\ \E v \in Vertices : poly' = <<v>> /\ UNCHANGED <<closed, nogo>>
-Second == Len(poly) = 1 /\ \E v \in Vertices : Less(poly[1], v) /\ poly' = Append(poly, v) /\ UNCHANGED <<closed, nogo>>
+Init == poly = <<>> /\ closed = FALSE /\ nogo = <<>> /\ extra = <<>>
+Start == poly = <<>> /\ \E v \in Vertices : poly' = <<v>> /\ UNCHANGED <<closed, nogo, extra>>
+Second == Len(poly) = 1 /\ \E v \in Vertices : Less(poly[1], v) /\ poly' = Append(poly, v) /\ UNCHANGED <<closed, nogo, extra>>
 Add == /\ ~closed /\ Len(poly) >= 2 /\ Len(poly) < MaxV
        /\ \E v \in Vertices : CanAppend(poly, v) /\ poly' = Append(poly, v)
-       /\ UNCHANGED <<closed, nogo>>
+       /\ UNCHANGED <<closed, nogo, extra>>
 Close == /\ ~closed /\ CanClose(poly) /\ closed' = TRUE
          /\ \E g \in NoGos : nogo' = g
+         /\ \E e \in Extras : extra' = e
          /\ UNCHANGED poly
 Next == Start \/ Second \/ Add \/ Close
 Spec == Init /\ [][Next]_vars
@@ -105,15 +107,19 @@ BuiltSimple ==
   closed => \A j, k \in 1..Len(poly) :
               (j < k /\ k # j + 1 /\ ~(j = 1 /\ k = Len(poly))) => ~SegsTouch(Edge(poly, j)[1], Edge(poly, j)[2], Edge(poly, k)[1], Edge(poly, k)[2])
 
-\* C04 : remove_cutout(property, remove_inside = FALSE, keep_contour = TRUE) then
-\*       remove_cutout(no-go, remove_inside = TRUE, keep_contour = FALSE)
-Keep(p) == /\ Class(poly, p) \in {0, 1}
-           /\ (nogo # <<>> => Class(nogo, p) = -1)
-KeptInsideProperty == closed => \A p \in TestPts : Keep(p) => (Class(poly, p) >= 0 /\ (nogo = <<>> \/ Class(nogo, p) = -1))
-NothingClearDropped == closed => \A p \in TestPts : (Class(poly, p) = 1 /\ (nogo = <<>> \/ Class(nogo, p) = -1)) => Keep(p)
+\* C04 : remove_cutout(property outlines, remove_inside = FALSE, keep_contour = TRUE) then
+\*       remove_cutout(no-go zones, remove_inside = TRUE, keep_contour = FALSE); several outlines / zones are given at once:
+\*       inside-or-on ANY property outline, and neither inside nor on the boundary of ANY zone (whatever its position in the list)
+Props == <<poly>> \o extra
+InSomeProp(p) == \E j \in 1..Len(Props) : Class(Props[j], p) \in {0, 1}
+ClearInSomeProp(p) == \E j \in 1..Len(Props) : Class(Props[j], p) = 1
+OffAllZones(p) == \A j \in 1..Len(nogo) : Class(nogo[j], p) = -1
+Keep(p) == InSomeProp(p) /\ OffAllZones(p)
+KeptInsideProperty == closed => \A p \in TestPts : Keep(p) => (InSomeProp(p) /\ OffAllZones(p))
+NothingClearDropped == closed => \A p \in TestPts : (ClearInSomeProp(p) /\ OffAllZones(p)) => Keep(p)
 
 \* the table for the replay: one character per test point in row-major order (x outer, y inner)
 ClassRow(q) == [x \in 0..(2 * (L - 1)) |-> [y \in 0..(2 * (L - 1)) |-> Class(q, <<x, y>>)]]
 KeepRow == [x \in 0..(2 * (L - 1)) |-> [y \in 0..(2 * (L - 1)) |-> IF Keep(<<x, y>>) THEN 1 ELSE 0]]
-Emit == closed => PrintT(ToJson([poly |-> poly, nogo |-> nogo, cls |-> ClassRow(poly), keep |-> KeepRow]))
+Emit == closed => PrintT(ToJson([poly |-> poly, nogo |-> nogo, extra |-> extra, cls |-> ClassRow(poly), keep |-> KeepRow]))
 =============================================================================
